@@ -332,6 +332,7 @@ def native_power(ctx, extra=None):
     progs = [['w', 'w', 'p:syncdata', 'x', 'w', 'x', 'p:syncall', 'x', 'w', 'b', 'x'],
              ['w', 'p:buffer', 'x', 'w', 'p:syncall', 'x', 'b', 'p:syncdata', 'x'],
              ['b', 'p:syncall', 'x', 'w', 'p:buffer', 'p:syncdata', 'x'],
+             ['w', 'B:syncall', 'x', 'w', 'B:syncdata', 'x', 'B:buffer', 'x'],                                            # batches with their own durability level
              ['w', 'p:syncall', 'c', 'p:syncall', 'x', 'w', 'p:syncdata', 'c', 'p:syncdata', 'x'],          # a clear is a write like any other
              ['v', 'w', 'r', 'x', 'p:syncall', 'x', 'v', 'w', 'r', 'v', 'p:syncdata', 'x']]                   # journal rotation: the sealed journal holds b's unflushed writes
     last = (False, None, 'not run')
